@@ -266,6 +266,7 @@ func ZZH_C15_TOCIdempotent() {
 	for i := 0; i < n; i++ {
 		lv := 1 + zzvChoice(4)
 		t := zzhHeadingText()
+		zzvAssume(t != DefaultTOCConfig().Title) // the TOC's own title line is not a heading entry
 		d.AddHeadingParagraph(t, lv)
 		if lv <= 3 {
 			texts = append(texts, t)
@@ -292,5 +293,25 @@ func ZZH_C15_TOCIdempotent() {
 		}
 	}
 	zzvAssert(same, "updating the table of contents twice gives the same entries (idempotent)")
+	// the headings disappear (removed, or demoted below the level): an update lists none
+	if zzvBool() {
+		for _, p := range d.Body.GetParagraphs() {
+			if d.getHeadingLevel(p) > 0 {
+				if zzvBool() {
+					d.RemoveParagraph(p)
+				} else {
+					p.SetStyle("Heading5")
+				}
+			}
+		}
+		zzvAssert(d.UpdateTOC() == nil, "UpdateTOC succeeds after the headings are gone")
+		for _, t := range texts {
+			c := 0
+			for _, e := range zzhTOCTexts(d) {
+				c += zzvIteInt(e == t, 1, 0)
+			}
+			zzvAssert(c == 0, "an updated table of contents no longer lists headings that are gone")
+		}
+	}
 	zzvReach("toc")
 }
